@@ -227,6 +227,9 @@ func Random(seed int64, idx int, opt RandOpt) *Entry {
 				case 3:
 					// taken verbatim: camelCase
 					JSON("camel" + strings.ReplaceAll(strings.Title(strings.ReplaceAll(fl.Name, "_", " ")), " ", "") + ",omitempty")(fl)
+				case 4:
+					// options without a name: the attribute keeps its snake_case name
+					JSON([]string{",omitempty", ",string", ",omitempty,string"}[len(fl.Name)%3])(fl)
 				}
 			}
 			m.Fields = append(m.Fields, fl)
